@@ -175,13 +175,26 @@ def _run_npt(ctx, spec, rng):
     da, db = _dims(rng, r)
     cplx = bool(r % 2)
     rho = _npt_state(rng, da, db, cplx)
+    margin = 0.02
+    if (r // 12) % 2 == 1:
+        # weakly entangled: a pure state with a small second Schmidt coefficient b (negative eigenvalue of the partial transpose about -b: small,
+        # but orders of magnitude beyond any tolerance), alone or with a little of a product state mixed in
+        b = float(rng.uniform(0.003, 0.03))
+        coeffs = np.zeros(min(da, db))
+        coeffs[0], coeffs[1] = np.sqrt(1 - b * b), b
+        psi, _, _ = gen.schmidt_state(rng, da, db, coeffs, cplx)
+        rho = np.outer(psi, psi.conj())
+        if (r // 24) % 2 == 1:
+            rho = 0.98 * rho + 0.02 * gen.product_state_mixture(rng, da, db, 1, cplx)
+        rho = ref.herm(rho) if cplx else ref.herm(rho).real
+        margin = 1e-3
     lam_min = ref.eigmin(ref.partial_transpose(rho, [1], [da, db], [da, db]))
-    if lam_min > -0.02:
+    if lam_min > -margin:
         return ctx.note_inconclusive("npt-margin")
     verdict, site = ask_separable(ctx, rho, [da, db], f"npt[{da}x{db}]")
     if verdict is None:
         return
-    ctx.check("O2b:npt-never-separable", verdict is False, sig=(da, db, cplx), nt=True, mech=f"is_separable:npt-declared-separable@[{site}]",
+    ctx.check("O2b:npt-never-separable", verdict is False, sig=(da, db, cplx, margin), nt=True, mech=f"is_separable:npt-declared-separable@[{site}]",
               detail={"dims": [da, db], "lambda_min_PT": lam_min, "return_site": site})
     if da * db <= 6:
         ctx.check("O2c:small-systems=PPT", verdict is False, sig=(da, db, "npt"), nt=True, mech="is_separable:small-system-differs-from-PPT", detail={"dims": [da, db], "site": site})
